@@ -10,7 +10,12 @@ Local Open Scope Z_scope.
 Local Open Scope list_scope.
 Notation lookup := MiniPyR.lookup.
 
-(* PROVED (exactly as stated in the task): repair_dna_gen (end of file), value and exception, through res_of_repair.
+(* PROVED: repair_dna_gen (end of file), value and exception, through res_of_repair.  The statement is the task's, with the callee
+   hypothesis about path_matching WEAKENED to occurrences 0 <= occ (PathMatchingGenProofs.path_matching_gen_nonneg discharges it):
+   repair_dna only calls path_matching with occ = observed_length - recall - 1 where recall < len(index_marker) <= observed_length;
+   the bound len(marker) <= k is scan_loop_markers (a property of Repair.scan_loop: the slice index_queue[loc - k : loc] with
+   0 <= loc < len has at most k entries, also when loc - k is negative and wraps / clamps), threaded through chunk_for /
+   exec_chunk_body / recall_loop (0 <= r, r + |remaining recalls| <= k) to exec_recall_body (0 <= k - r - 1).
    repair_dna calls path_matching (same generated module; hypothesis of the theorem), dna_to_number and set_vt (repair_callees_ok).
 
    Structure of the proof (Section Repair; the staged lemmas are usable on their own):
